@@ -100,7 +100,38 @@ class Interp:
         p.counter[('obl', kind, rel)] = n + 1
         name = f'{kind}@L{rel}#{n}/p{p.pid()}'
         extra = [t for k, t in getattr(self, 'scoped', []) if k in kind]
-        p.obligs.append(Obligation(name, kind, list(p.pc) + extra, goal, line, p.pid(), note))
+        goal, inst = self.skolemize_goal(goal, list(p.pc) + extra)
+        p.obligs.append(Obligation(name, kind, list(p.pc) + extra + inst, goal, line, p.pid(), note))
+
+    def skolemize_goal(self, goal, pc):
+        """a goal `forall k: Int. body(k)` (or a conjunction with such parts) is proved for a fresh constant instead, and every
+        assumption of the same shape (forall over one Int) is additionally instantiated at that constant (and its neighbours):
+        sound both ways — the quantified assumptions stay — and it spares the solver the instantiation search over
+        sequence terms, where MBQI was observed to give up (unknown after 40 s on a three-line invariant)"""
+        if not z3.is_expr(goal):
+            return goal, []
+        sks = []
+
+        def sk(g):
+            if z3.is_quantifier(g) and g.is_forall() and all(g.var_sort(i) == z3.IntSort() for i in range(g.num_vars())):
+                cs = [self.path.fresh(z3.IntSort(), 'sk_' + g.var_name(i)) for i in range(g.num_vars())]
+                sks.extend(cs)
+                return sk(z3.substitute_vars(g.body(), *reversed(cs)))
+            if z3.is_and(g):
+                return z3.And(*[sk(c) for c in g.children()])
+            if z3.is_implies(g):
+                return z3.Implies(g.arg(0), sk(g.arg(1)))
+            return g
+        g2 = sk(goal)
+        if not sks:
+            return goal, []
+        inst = []
+        for a in pc:
+            if z3.is_quantifier(a) and a.is_forall() and a.num_vars() == 1 and a.var_sort(0) == z3.IntSort():
+                for c in sks:
+                    for t in (c, c - 1, c + 1):
+                        inst.append(z3.substitute_vars(a.body(), t))
+        return g2, inst
 
     # ================================================================ truth / equality / lifting
     def interned_object(self, fact, const, obj):
@@ -132,6 +163,8 @@ class Interp:
         if isinstance(v, bool):
             return v
         if z3.is_expr(v):
+            if v.sort() == self.zs.zsort(api.Obj):
+                return self.ufun('obj_truthy', v.sort(), z3.BoolSort())(v)       # a raw opaque-object term (element of a ghost sequence)
             if z3.is_bool(v):
                 return v
             if z3.is_int(v):
